@@ -1701,6 +1701,80 @@ Proof.
 Qed.
 
 (* ------------------------------------------------------------------------------------------------ *)
+(* The buffered queue of an analyzer level (capacity: the number of analyzer actions) is never full   *)
+
+Lemma root_ready_all_dn : forall s g, Inv s g -> stg g (root G) <> SWait -> forall a, In a (nodes G) -> get (dn s) a = true.
+Proof.
+  intros s g I Hr.
+  assert (forall k a, In a (nodes G) -> rank G a + k = length (nodes G) -> get (dn s) a = true).
+  { induction k using lt_wf_ind. intros a Hn Hk.
+    assert (Ha : In a (alln G)) by (right; assumption).
+    pose proof (wf_tne G WF a Hn) as Ht. destruct (trig G a) as [| b ts] eqn:E; try congruence.
+    assert (Hbt : In b (trig G a)) by (rewrite E; left; reflexivity).
+    assert (Hb : In b (alln G)) by (eapply (wf_tin G WF); eauto).
+    assert (Hab : In a (deps G b)) by (apply (trig_deps G WF a b Ha Hb); assumption).
+    destruct (alln_cases G WF b Hb) as [-> | [Hbn Hbr]].
+    - apply (i_deps _ _ I (root G)); auto.
+    - pose proof (rank_deps G WF b Hb a Hab) as Hlt.
+      assert (Hle : rank G b <= length (nodes G)). { unfold rank. destruct (b =? root G). lia. apply idx_le. }
+      assert (Hdb : get (dn s) b = true). { apply (H (length (nodes G) - rank G b)); auto; lia. }
+      apply (i_deps _ _ I b Hb); auto.
+      destruct (get (th s) b) eqn:Eb.
+      + erewrite th_stage; eauto. discriminate.
+      + rewrite (i_dn0 _ _ I b Eb) in Hdb. discriminate. }
+  intros a Ha. assert (Hle : rank G a <= length (nodes G)). { unfold rank. destruct (a =? root G). lia. apply idx_le. }
+  apply (H (length (nodes G) - rank G a)); auto. lia.
+Qed.
+
+Lemma cntq_In : forall b q, 0 < cntq b q <-> In b (map mitem q).
+Proof.
+  induction q; simpl. split; [lia | tauto].
+  destruct (Nat.eqb_spec (mitem a) b).
+  - subst. split; intros; [auto | lia].
+  - rewrite IHq. simpl. split; intros; [auto | destruct H; [congruence | auto]].
+Qed.
+
+Lemma cntq_NoDup : forall q, (forall b, cntq b q <= 1) -> NoDup (map mitem q).
+Proof.
+  induction q; simpl; intros. constructor.
+  constructor.
+  - intro Hin. apply cntq_In in Hin. specialize (H (mitem a)). rewrite Nat.eqb_refl in H. lia.
+  - apply IHq. intros b. specialize (H b). lia.
+Qed.
+
+Theorem queue_bound : forall s g, Inv s g -> length (queue s) <= length (nodes G).
+Proof.
+  intros s g I. rewrite <- (map_length mitem).
+  assert (Hone : forall b, cntq b (queue s) <= 1). { intros b. rewrite (i_queue _ _ I b). destruct (stg g b); lia. }
+  assert (Hstage : forall b, In b (map mitem (queue s)) -> stg g b = SQueue).
+  { intros b Hb. apply cntq_In in Hb. rewrite (i_queue _ _ I b) in Hb. destruct (stg g b); try lia. reflexivity. }
+  pose proof (cntq_NoDup _ Hone) as ND.
+  destruct (in_dec Nat.eq_dec (root G) (map mitem (queue s))) as [Hr | Hr].
+  - (* the root is queued: every other action has a handler, so nothing else is queued *)
+    assert (Hsr : stg g (root G) <> SWait) by (rewrite (Hstage _ Hr); discriminate).
+    assert (Hsub : incl (map mitem (queue s)) [root G]).
+    { intros b Hb. destruct (Nat.eq_dec b (root G)) as [-> | Hn]. left; reflexivity. exfalso.
+      assert (Hbn : In b (nodes G)).
+      { pose proof (Hstage b Hb) as Sb. destruct (in_dec Nat.eq_dec b (alln G)) as [[Hx | Hx] | Hx]; auto. congruence.
+        rewrite (i_out _ _ I b Hx) in Sb. discriminate. }
+      pose proof (root_ready_all_dn _ _ I Hsr b Hbn) as Hd.
+      destruct (get (th s) b) eqn:Eb.
+      - pose proof (th_stage _ _ I _ _ Eb). rewrite (Hstage b Hb) in H. discriminate.
+      - rewrite (i_dn0 _ _ I b Eb) in Hd. discriminate. }
+    pose proof (NoDup_incl_length ND Hsub). simpl in H.
+    pose proof (wf_rne G WF). destruct (deps G (root G)) as [| d l] eqn:E; try congruence.
+    assert (In d (nodes G)). { apply (wf_rdeps G WF). rewrite E. left. reflexivity. }
+    destruct (nodes G); simpl in *; [contradiction | lia].
+  - apply NoDup_incl_length; auto. intros b Hb. pose proof (Hstage b Hb) as Sb.
+    destruct (in_dec Nat.eq_dec b (alln G)) as [[Hx | Hx] | Hx]; auto.
+    + subst. contradiction.
+    + rewrite (i_out _ _ I b Hx) in Sb. discriminate.
+Qed.
+
+Theorem queue_bound_run : forall tr s, lrun tr s -> length (queue s) <= length (nodes G).
+Proof. intros. destruct (lrun_Inv _ _ H) as [g I]. eapply queue_bound; eauto. Qed.
+
+(* ------------------------------------------------------------------------------------------------ *)
 (* Tokens                                                                                             *)
 
 (* handler a holds a token it has not released yet *)
